@@ -73,6 +73,7 @@ type ROp struct {
 var LastSrcReads, LastSrcSeeks int
 
 type RScenario struct {
+	Altered    bool   // a byte of the stream was altered: the member table no longer describes it
 	HasEOFWant string // "" (not checked), or "false": bgzf.HasEOF on the stream must report false
 	Truth     *Truth // when set (C01 read-back), replies carry hpos/dok instead of data/pm
 	Class     string
@@ -121,7 +122,7 @@ func RunReader(t *tr.Writer, sc RScenario) []tr.M {
 		fileEnd = sc.File.Members[n-1].Base + int64(sc.File.Members[n-1].Size)
 	}
 	t.Begin("reader/"+sc.Class, tr.M{"file": sc.File.Layout(), "fileEnd": fileEnd, "total": sc.File.Total, "rd": sc.RD,
-		"faultable": sc.Faultable, "cutLen": sc.CutLen, "failRead": sc.FailRead, "failSeek": sc.FailSeek, "streamLen": len(stream)})
+		"faultable": sc.Faultable, "altered": sc.Altered, "cutLen": sc.CutLen, "failRead": sc.FailRead, "failSeek": sc.FailSeek, "streamLen": len(stream)})
 	src := &Src{R: bytes.NewReader(stream), FailRead: sc.FailRead, FailSeek: sc.FailSeek, Partial: sc.Partial, Sticky: sc.Sticky}
 	var br *bgzf.Reader
 	var err error
